@@ -276,6 +276,68 @@ def symlink_probe():
     }
 
 
+def unusual_invocations(chk):
+    """(a) the project's cond-out is a symbolic link to a directory elsewhere (outputs kept on another disk): gc must still
+    delete the unrecorded output and dry-run must list it; (b) `cond gc -v` is invoked from INSIDE an unrecorded output
+    directory (the user went there to read stderr.log): every unrecorded directory -- the current one included -- must be
+    gone afterwards, and the command must not die half way."""
+    import subprocess
+    from common import PY, SRC
+
+    cond = ('run_experiment(name="smoke", run="echo s; exit 1")\n'
+            'run_experiment(name="keep", run="echo kept > $COND_OUT/r")\n')
+    sub = 'run_experiment(name="bad", run="exit 1")\n'
+    env = dict(os.environ, PYTHONPATH=SRC)
+    for variant in ("cond-out is a symlink", "gc -v from inside an unrecorded output"):
+        root = implrun.make_project({"COND": cond, "exp/COND": sub, "exp/deep/COND": sub})
+        if variant.startswith("cond-out is"):
+            real = os.path.join(os.path.dirname(root), "elsewhere-disk")
+            os.makedirs(real)
+            os.symlink(real, os.path.join(root, "cond-out"))
+        rcs = [implrun.run_cond(["run", t], root).code for t in ("//:smoke", "//:keep", "//exp:bad", "//exp/deep:bad")]
+        co = os.path.realpath(os.path.join(root, "cond-out"))
+
+        def unrecorded():
+            out = []
+            for dp, dns, _f in os.walk(co):
+                for d in list(dns):
+                    if ".task." in d:
+                        dns.remove(d)
+                        if not d.startswith("keep.task."):
+                            out.append(os.path.relpath(os.path.join(dp, d), co))
+            return sorted(out)
+
+        before = unrecorded()
+        cwd = root
+        if variant.startswith("gc -v from"):
+            cwd = os.path.join(co, [d for d in before if d.startswith("smoke.task.")][0])
+        dry = subprocess.run([PY, "-m", "conductor", "gc", "-n"], cwd=root, env=env, capture_output=True, text=True)
+        real_gc = subprocess.run([PY, "-m", "conductor", "gc", "-v"], cwd=cwd, env=env, capture_output=True, text=True)
+        chk.coverage["evaluations"] += 2
+        chk.count("unusual gc invocation", variant)
+        left = unrecorded()
+        kept = [d for d in os.listdir(co) if d.startswith("keep.task.")]
+        problems = []
+        if rcs != [1, 0, 1, 1] or len(before) != 3 or len(kept) != 1:
+            problems.append("harness: set-up failed (%r, %r, %r)" % (rcs, before, kept))
+        else:
+            missing = [d for d in before if os.path.basename(d) not in dry.stdout]
+            if missing:
+                problems.append("gc --dry-run does not list %r: %r" % (missing, dry.stdout[-200:]))
+            if left:
+                problems.append("after `cond gc -v` (exit %d) unrecorded output directories are still there: %r; output %r" % (real_gc.returncode, left, (real_gc.stdout + real_gc.stderr)[-200:]))
+            if real_gc.returncode != 0:
+                problems.append("`cond gc -v` exited %d: %r" % (real_gc.returncode, real_gc.stderr[-200:]))
+            if not os.path.isfile(os.path.join(co, kept[0], "r")):
+                problems.append("the recorded version %s was damaged" % kept[0])
+        for msg in problems:
+            chk.violation("impl-violation", "%s: %s" % (variant, msg),
+                          {"input": {"part": "unusual-invocations", "variant": variant}, "impl_observation": {"gc_exit": real_gc.returncode, "gc_stdout": real_gc.stdout[-300:], "gc_stderr": real_gc.stderr[-300:], "left": left},
+                           "oracle_verdict": msg}, match_key={"tree": "unusual-invocation"}, size=1)
+        if not problems:
+            chk.coverage["traces_validated_against_impl"] += 2
+
+
 def read_only_outputs(chk):
     """A failed experiment left output that is not writable any more (a package cache it made read-only, a directory
     it chmod'ed to 000).  `cond gc` runs WITHOUT the capabilities that let root ignore permissions (the harness runs
@@ -349,8 +411,9 @@ def run(tier, seed, replay=None):
 
     rn = Runner(chk)
 
-    if replay is not None and replay.get("input", {}).get("part") == "read-only-outputs":
+    if replay is not None and replay.get("input", {}).get("part") in ("read-only-outputs", "unusual-invocations"):
         read_only_outputs(chk)
+        unusual_invocations(chk)
         return chk.finish()
     if replay is not None:
         inp = replay["input"]
@@ -399,6 +462,7 @@ def run(tier, seed, replay=None):
         "the files under cond-out belong to the invoking user (gc makes a directory accessible to its owner before retrying a failed removal; somebody else's files cannot be removed and the error is reported)",
     ]
     read_only_outputs(chk)
+    unusual_invocations(chk)
     probe = symlink_probe()
     chk.coverage["symlink_probe"] = probe
     if probe["observed"] != "not followed":
